@@ -29,9 +29,9 @@ Definition penal (trim : A) (der errs : list A) : list A :=
   let p25 := pct der (ofZ Op 25) in let med := pct der (ofZ Op 50) in let p75 := pct der (ofZ Op 75) in
   let iqr := abs Op (sub Op p75 p25) in let am := abs Op med in
   map (fun ve => let '(v, e) := ve in
-    let o := add Op (mul Op (add Op (b2a Op (ltb Op (abs Op v) (div Op am trim))) (b2a Op (ltb Op (mul Op am trim) (abs Op v))))
-                            (b2a Op (ltb Op c_1em8 am)))
-                    (add Op (b2a Op (ltb Op v (sub Op p25 (mul Op c_1p5 iqr)))) (b2a Op (ltb Op (add Op p75 (mul Op c_1p5 iqr)) v))) in
+    (* the source combines boolean arrays with + and *: logical or / and, so the factor is 0 or 1 *)
+    let o := b2a Op (((ltb Op (abs Op v) (div Op am trim) || ltb Op (mul Op am trim) (abs Op v)) && ltb Op c_1em8 am)
+                     || (ltb Op v (sub Op p25 (mul Op c_1p5 iqr)) || ltb Op (add Op p75 (mul Op c_1p5 iqr)) v)) in
     add Op e (mul Op o (abs Op (sub Op v med)))) (combine der errs).
 (* nanargmin with ties broken by the middle index of the minimisers (NaN-free column) *)
 Definition argmin_mid (errs : list A) : nat :=
